@@ -217,6 +217,11 @@ func registerIntrinsics(m *Machine) {
 		return &v
 	}
 	in["regexp.MustCompile"] = mustCompile
+	in["(*regexp.Regexp).Match"] = func(m *Machine, fr *frame, a []value) value {
+		p := a[0].(*value)
+		cr := (*p).(opaque).data.(*compiledRegexp)
+		return m.regexMatch(cr, valuesToBytes(a[1].([]value)))
+	}
 	in["regexp.Compile"] = func(m *Machine, fr *frame, a []value) value {
 		return tuple{mustCompile(m, fr, a), iface{}}
 	}
